@@ -1,5 +1,6 @@
 """C19 - arc removal keeps both graph views in step over any call sequence (DESIGN.md section 4, C19)."""
 import ast
+import collections
 import copy
 
 import numpy as np
@@ -61,7 +62,7 @@ def generate(ctx):
         acc, t, fam = g
         yield "history", dict(gens.graph_case(acc, k), t=t, fam=fam, ins=rng.random() < 0.5, dele=rng.random() < 0.5,
                               max_steps=(10 ** 6 if k <= 3 else ctx.pick(25, 250)),
-                              views=rng.choice(["library", "library", "hand-built map", "fortran accessor", "strided accessor"]))
+                              views=rng.choice(["library", "library", "hand-built map", "defaultdict map", "fortran accessor", "strided accessor"]))
 
 
 def _norm(lm):
@@ -213,6 +214,8 @@ def check_history(ctx, case):
             ctx.rng.shuffle(row)
             hand[a] = row
         lm = hand
+    elif views == "defaultdict map":   # a dict subclass that grows an entry on every failed lookup: a probing read becomes a write
+        lm = collections.defaultdict(list, {int(a): [int(x) for x in b] for a, b in lm.items()})
     elif views == "fortran accessor":  # same values, column-major memory
         acc = np.asfortranarray(acc)
     elif views == "strided accessor":  # a non-contiguous view of a wider table
